@@ -253,14 +253,14 @@ _REAL = None
 def real_blocks():
     global _REAL
     if _REAL is None:
-        import vermouth.forcefield
+        from . import c04_real
+        ffs = c04_real._load()['ffs']
         _REAL = {}
         for ffname in ('charmm', 'amber', 'gromos54a7', 'universal'):
-            try:
-                ff = vermouth.forcefield.get_native_force_field(ffname)
-            except Exception:      # noqa
+            if ffname not in ffs:
                 continue
-            for name, block in ff.blocks.items():
+            _FFS[ffname] = ffs[ffname]
+            for name, block in ffs[ffname].blocks.items():
                 if 3 <= len(block) <= 40:
                     bg = block_graph(block)
                     if bg:
@@ -269,6 +269,8 @@ def real_blocks():
 
 
 _FFS = {}
+CRASH_EVENT = {'kind': 'repair', 'Ref': {'nodes': [], 'edges': []}, 'R': {'nodes': [], 'edges': []}, 'assigned': [], 'flagged': [],
+               'removed': [], 'added': [], 'edges': [], 'exact': False, 'planted': 0, 'mutated': False, 'problems': []}
 
 
 def _real_task(conn, pair, seed):
@@ -293,138 +295,419 @@ def _real_task(conn, pair, seed):
             e['block'] = '%s/%s' % (ffname, e['block'])
         conn.send(evs)
     except Exception as exc:      # noqa
-        conn.send([{'kind': 'repair', 'crash': 'RepairGraph raised %r on %r' % (exc, pair),
-                    'Ref': {'nodes': [], 'edges': []}, 'R': {'nodes': [], 'edges': []}, 'assigned': [], 'flagged': [],
-                    'removed': [], 'added': [], 'edges': [], 'exact': False, 'planted': 0, 'mutated': False, 'problems': []}])
+        conn.send([dict(CRASH_EVENT, crash='RepairGraph raised %r on %r' % (exc, pair))])
     conn.close()
 
 
-def run_real(pairs, seed, limit):
-    """Run every task in its own forked process, at most NCPU at a time; a task exceeding `limit` seconds is killed and counted
-    as inconclusive (the matcher is worst-case exponential and part of its work happens inside uninterruptible C calls)."""
+def _struct_task(conn, case):
+    """One real structure in one damaged presentation through the real front end (harness/c04_real.py)."""
+    from . import c04_real
+    try:
+        rec = c04_real.run_case(case)
+        evs = rec.events
+        if rec.crash:
+            evs = evs + [dict(CRASH_EVENT, crash='the front end raised %s on %r' % (rec.crash, case), info={'family': case['family']})]
+        conn.send(evs)
+    except Exception as exc:      # noqa
+        import traceback
+        conn.send([{'kind': 'inconclusive', 'what': ['harness error in a real-structure case', repr(case), traceback.format_exc()[-400:]], 'harness_error': True}])
+    conn.close()
+
+
+def run_killable(target, args, limit, what):
+    """Run target(conn, *args) in its own forked process; a task exceeding `limit` seconds is killed and counted as inconclusive
+    (the matcher is worst-case exponential and part of its work happens inside uninterruptible C calls)."""
     import time
-    import vermouth.forcefield
-    real_blocks()
-    for ffname in {p[0][0] for p in pairs}:
-        _FFS.setdefault(ffname, vermouth.forcefield.get_native_force_field(ffname))
     ctx = mp.get_context('fork')
-    pending = list(enumerate(pairs))
-    running = {}
-    out_events = []
-    while pending or running:
-        while pending and len(running) < tlc.NCPU:
-            i, pair = pending.pop()
-            parent, child = ctx.Pipe(duplex=False)
-            proc = ctx.Process(target=_real_task, args=(child, pair, seed * 7919 + i))
-            proc.start()
-            child.close()
-            running[i] = (proc, parent, time.time(), pair)
-        time.sleep(0.02)
-        for i in list(running):
-            proc, parent, t0, pair = running[i]
-            if parent.poll():
+    parent, child = ctx.Pipe(duplex=False)
+    proc = ctx.Process(target=target, args=(child,) + tuple(args))
+    proc.start()
+    child.close()
+    t0 = time.time()
+    try:
+        while True:
+            if parent.poll(0.02):
                 try:
-                    out_events += parent.recv()
+                    out = parent.recv()
                 except EOFError:
-                    out_events.append({'kind': 'inconclusive', 'what': [list(p) for p in pair] + ['worker died']})
+                    out = [{'kind': 'inconclusive', 'what': what + ['worker died']}]
                 proc.join()
-                del running[i]
-            elif not proc.is_alive():
-                out_events.append({'kind': 'inconclusive', 'what': [list(p) for p in pair] + ['worker died']})
-                del running[i]
-            elif time.time() - t0 > limit:
+                return out
+            if not proc.is_alive():
+                if parent.poll(0.05):
+                    continue
+                return [{'kind': 'inconclusive', 'what': what + ['worker died']}]
+            if time.time() - t0 > limit:
                 proc.kill()
                 proc.join()
-                out_events.append({'kind': 'inconclusive', 'what': [list(p) for p in pair]})
-                del running[i]
-    return out_events
+                return [{'kind': 'inconclusive', 'what': what + ['time limit']}]
+    finally:
+        parent.close()
 
 
-def _judge(shard):
+REPAIR_FIELDS = ('kind', 'Ref', 'R', 'assigned', 'flagged', 'removed', 'added', 'edges', 'exact', 'planted', 'mutated')
+
+
+def _slim(e):
+    if e['kind'] == 'repair':
+        return {k: e[k] for k in REPAIR_FIELDS}
+    from . import c04_real
+    return c04_real.slim(e)
+
+
+def judge_batch(events):
+    """TLC on one batch -> (distinct, generated, {index: (verdict, note)})."""
+    import shutil
     work = tlc.scratch('c04_')
-    keys = ('kind', 'Ref', 'R', 'assigned', 'flagged', 'removed', 'added', 'edges', 'exact', 'planted', 'mutated')
-    tf = tlc.write_json(work, 'trace.json', [{k: e[k] for k in keys} for e in shard])
-    res = tlc.run('Trace_Repair', 'SPECIFICATION Spec\n', dump=True, env={'TRACE_FILE': tf}, workdir=work, workers=1, timeout=3400)
-    return res.distinct, res.generated, {st['tid']: st['verdict'] for st in res.states() if st['verdict'] != 'pending'}
+    try:
+        tf = tlc.write_json(work, 'trace.json', [_slim(e) for e in events])
+        res = tlc.run('Trace_Repair', 'SPECIFICATION Spec\n', dump=True, env={'TRACE_FILE': tf}, workdir=work, workers=1, timeout=3400)
+        verdicts = {st['tid']: (st['verdict'], st['note']) for st in res.states() if st['verdict'] != 'pending'}
+        return res.distinct, res.generated, verdicts
+    finally:
+        shutil.rmtree(work, ignore_errors=True)
 
 
-def judge_events(events, ev, vd):
-    inconclusive = [e for e in events if e['kind'] == 'inconclusive']
-    ev.extra['inconclusive_matcher_timeouts'] = len(inconclusive)
-    ev.extra['inconclusive_examples'] = [e['what'] for e in inconclusive[:5]]
+def _label(e):
+    if e['kind'] != 'repair':
+        return 'real:' + (e.get('info') or {}).get('family', '?')
+    o = e.get('presentation') or {}
+    return 'mutation' if e['mutated'] else '%s%s%s%s' % (o.get('names'), '+perm' if o.get('permute') else '',
+                                                         '+del' if o.get('delete') else '', '+extra' if o.get('extra') else '')
+
+
+def _nt_hash(case):
+    import hashlib
+    import json
+    return hashlib.sha1(json.dumps(common.jsonable(case), sort_keys=True).encode()).hexdigest()[:16]
+
+
+class Summary:
+    """What a worker returns: counts, hashes of non-trivial cases, the (few) rejected events - never the events themselves."""
+    def __init__(self):
+        self.states = self.transitions = self.traces = self.events = 0
+        self.nontrivial = set()
+        self.fam = {}
+        self.effects = {}            # family -> {effect: count}
+        self.notes = {}
+        self.unjudged = {}
+        self.violations = []         # (kind, scenario, detail), at most 20
+        self.nviol = 0
+        self.inconclusive = 0
+        self.inconclusive_examples = []
+        self.harness_errors = []
+        self.samples = {}
+
+    def merge(self, o):
+        for k in ('states', 'transitions', 'traces', 'events', 'nviol', 'inconclusive'):
+            setattr(self, k, getattr(self, k) + getattr(o, k))
+        self.nontrivial |= o.nontrivial
+        for name in ('fam', 'notes', 'unjudged'):
+            d = getattr(self, name)
+            for k, v in getattr(o, name).items():
+                d[k] = d.get(k, 0) + v
+        for f, d in o.effects.items():
+            t = self.effects.setdefault(f, {})
+            for k, v in d.items():
+                t[k] = t.get(k, 0) + v
+        self.violations += o.violations
+        self.inconclusive_examples = (self.inconclusive_examples + o.inconclusive_examples)[:8]
+        self.harness_errors += o.harness_errors
+        for k, v in o.samples.items():
+            self.samples.setdefault(k, v)
+
+    def violation(self, kind, scenario, detail):
+        self.nviol += 1
+        if len(self.violations) < 20:
+            self.violations.append((kind, scenario, detail))
+
+
+def judge_into(events, sm):
+    """Judge a list of events (any kinds) and fold the result into the summary `sm`."""
+    from . import c04_real
+    for e in events:
+        if e['kind'] == 'inconclusive':
+            if e.get('harness_error'):
+                sm.harness_errors.append(e['what'])
+            sm.inconclusive += 1
+            if len(sm.inconclusive_examples) < 8:
+                sm.inconclusive_examples.append(e['what'])
     events = [e for e in events if e['kind'] != 'inconclusive']
-    direct = [e for e in events if e.get('crash') or e.get('problems')]
-    rest = [e for e in events if not (e.get('crash') or e.get('problems'))]
-    for e in direct:
-        ev.traces += 1
-        ev.evaluations += 1
-        vd.violation('repair-failed', {k: e[k] for k in e if k not in ('Ref', 'R')}, e.get('crash') or '; '.join(e['problems']))
-    shards = common.chunks(rest, tlc.NCPU)
-    with mp.Pool(len(shards)) as pool:
-        outs = pool.map(_judge, shards)
-    fam = {}
-    for shard, (d, g, verdicts) in zip(shards, outs):
-        ev.states += d
-        ev.transitions += g
-        for i, e in enumerate(shard, 1):
-            ev.traces += 1
-            ev.evaluations += 1
-            v = verdicts.get(i, 'no-verdict')
-            o = e.get('presentation') or {}
-            label = 'mutation' if e['mutated'] else '%s%s%s%s' % (o.get('names'), '+perm' if o.get('permute') else '',
-                                                                 '+del' if o.get('delete') else '', '+extra' if o.get('extra') else '')
-            fam[label] = fam.get(label, 0) + 1
+    sm.events += len(events)
+    rest = []
+    for e in events:
+        if e.get('crash') or e.get('problems'):
+            sm.traces += 1
+            sm.violation('repair-failed', {k: e[k] for k in e if k not in ('Ref', 'R')}, e.get('crash') or '; '.join(e['problems']))
+        else:
+            rest.append(e)
+    if not rest:
+        return
+    d, g, verdicts = judge_batch(rest)
+    sm.states += d
+    sm.transitions += g
+    for i, e in enumerate(rest, 1):
+        sm.traces += 1
+        v, note = verdicts.get(i, ('no-verdict', '-'))
+        label = _label(e)
+        sm.fam[label] = sm.fam.get(label, 0) + 1
+        if e['kind'] == 'repair':
             if len(e['R']['nodes']) >= 3:
-                ev.nontrivial_case([e.get('block'), e['R'], e.get('names_in')])
-            if v != 'ok':
-                vd.violation('trace-rejected', e, '%s %s: %s' % (e.get('block'), label, v))
-    return fam
+                sm.nontrivial.add(_nt_hash([e.get('block'), e['R'], e.get('names_in')]))
+            if (e.get('presentation') or {}).get('delete') and e.get('added'):
+                sm.samples.setdefault('block', {'kind': 'recorded repair judged by TLC', 'block': e['block'], 'presentation': e['presentation'],
+                                                'names_in': e['names_in'], 'assigned': e['assigned'], 'added': e['added'], 'flagged': e['flagged']})
+        else:
+            fam = (e.get('info') or {}).get('family', '?')
+            if e['kind'] == 'repairx':
+                sm.notes[note] = sm.notes.get(note, 0) + 1
+                if e.get('touched') and len(e['R']['nodes']) >= 3:
+                    sm.nontrivial.add(_nt_hash([e['info'].get('structure'), e['where'], e['R'], e['names_in'], e['muts'], e['mods']]))
+                if v == 'ok' and e.get('touched'):
+                    fx = sm.effects.setdefault(fam, {})
+                    for k in c04_real.effects(e):
+                        fx[k] = fx.get(k, 0) + 1
+                    if 'readded' in c04_real.effects(e) and 'renamed' in c04_real.effects(e):
+                        sm.samples.setdefault('real', {'kind': 'recorded repair of a real residue judged by TLC', 'where': e['where'], 'case': e['info'],
+                                                       'names_in': e['names_in'], 'out': [[o['name'], o['ptm']] for o in e['out']], 'verdict rests on': note})
+            elif e['kind'] == 'unknown' and v == 'ok':
+                fx = sm.effects.setdefault(fam, {})
+                fx['judged'] = fx.get('judged', 0) + 1
+                if len(e['kept']) < len(e['mols']):
+                    fx['dropped'] = fx.get('dropped', 0) + 1
+        if v.startswith('unjudged:'):
+            sm.unjudged[v] = sm.unjudged.get(v, 0) + 1
+        elif v != 'ok':
+            sm.violation('trace-rejected', e, '%s %s %s: %s' % (e.get('block') or e.get('where'), label,
+                                                                 (e.get('info') or {}).get('damage', ''), v))
+
+
+def _worker(tasks, results, limits, wid):
+    """Pulls tasks until the queue is empty, runs them, judges its own events in batches, returns one Summary."""
+    import queue
+    sm = Summary()
+    buf = []
+    try:
+        while True:
+            try:
+                task = tasks.get(timeout=0.2)
+            except queue.Empty:
+                break
+            if task[0] == 'syn':
+                buf += _synthetic_chunk((task[1], task[2]))
+            elif task[0] == 'pair':
+                buf += run_killable(_real_task, (task[1], task[2]), limits[0], [list(p) for p in task[1]])
+            elif task[0] == 'struct':
+                buf += run_killable(_struct_task, (task[1],), limits[1], [repr(task[1])])
+            elif task[0] == 'events':
+                buf += task[1]
+            if len(buf) >= 250:
+                judge_into(buf, sm)
+                buf = []
+        if buf:
+            judge_into(buf, sm)
+        results.put(('ok', wid, sm))
+    except tlc.MachineryError as exc:
+        results.put(('machinery', wid, str(exc)[-3000:]))
+    except Exception:      # noqa
+        import traceback
+        results.put(('machinery', wid, traceback.format_exc()[-3000:]))
+
+
+def run_tasks(tasks, limits):
+    """Distribute tasks over NCPU worker processes (non-daemonic: they fork killable children); collect the summaries."""
+    import queue
+    import time
+    ctx = mp.get_context('fork')
+    tq, rq = ctx.Queue(), ctx.Queue()
+    for t in tasks:
+        tq.put(t)
+    n = min(tlc.NCPU, max(1, len(tasks)))
+    procs = [ctx.Process(target=_worker, args=(tq, rq, limits, i)) for i in range(n)]
+    for p in procs:
+        p.start()
+    total = Summary()
+    got = 0
+    dead_since = None
+    while got < n:
+        try:
+            kind, wid, payload = rq.get(timeout=0.5)
+        except queue.Empty:
+            if all(not p.is_alive() for p in procs):
+                dead_since = dead_since or time.time()
+                if time.time() - dead_since > 5:
+                    raise tlc.MachineryError('%d of %d C04 workers ended without a result' % (n - got, n))
+            continue
+        got += 1
+        if kind != 'ok':
+            for p in procs:
+                p.is_alive() and p.kill()
+            raise tlc.MachineryError('C04 worker %s failed: %s' % (wid, payload))
+        total.merge(payload)
+    for p in procs:
+        p.join()
+    return total
+
+
+def struct_cases(tier, rng):
+    """Real structures x damage families x bond modes (+ requests).  Every family appears in the quick tier."""
+    from . import c04_real
+    quick = tier == 'quick'
+    fams = [f for f in c04_real.DAMAGE if f != 'as-shipped']
+    structures = ['dipro', 'trpcage'] if quick else ['dipro', 'trpcage', 'sheet', 'helix', 'hst5', 'villin', '3i40', 'bpti', 'dipro+trpcage']
+    cases = []
+    for si, s in enumerate(structures):
+        for fi, f in enumerate(fams):
+            reps = 1 if quick else 3
+            for r in range(reps):
+                if quick and s == 'dipro' and (fi % 2):
+                    continue
+                bonds = 'distance' if (f in ('junk-all', 'junk-h', 'swap-equivalent', 'names-from-other') and (r + fi + si) % 2 == 0) else 'both'
+                cases.append({'structure': s, 'family': f, 'seed': rng.randrange(10 ** 6), 'bonds': bonds})
+        for combo in (['shuffle-order+junk-all+del-side-subset', 'junk-h+del-n-h-ca+extra-atoms'] if quick else
+                      ['shuffle-order+junk-all+del-side-subset', 'junk-h+del-n-h-ca+extra-atoms', 'del-all-h+swap-equivalent+shuffle-order',
+                       'names-from-other+del-beyond-cb', 'junk-all+extra-atoms', 'del-all-h+junk-all']):
+            cases.append({'structure': s, 'family': combo, 'seed': rng.randrange(10 ** 6), 'bonds': rng.choice(['both', 'distance'])})
+    # two chains, one with a residue name no block has: that molecule goes, the other stays
+    cases.append({'structure': 'dipro+trpcage', 'family': 'unknown-resname', 'seed': rng.randrange(10 ** 6), 'bonds': 'both'})
+    # requests: the reference is the requested block + modifications
+    req = [('trpcage', [['A-TRP6', 'ALA']], None, 'mutate'), ('trpcage', [['GLY', 'ALA'], ['A-PRO12', 'GLY']], None, 'mutate'),
+           ('trpcage', [['TYR3', 'PHE'], ['TYR3', 'PHE']], None, 'mutate'),
+           ('trpcage', [], [['ASP9', 'ASP-HD2'], ['A-LYS8', 'LYS-LSN'], ['cter', 'COOH-ter'], ['nter', 'NH2-ter']], 'modify'),
+           ('dipro', [['PRO2', 'ALA']], [['nter', 'none'], ['cter', 'C-ter']], 'mutate')]
+    if not quick:
+        req += [('sheet', [['THR', 'VAL'], ['A-TRP', 'PHE']], None, 'mutate'), ('helix', [['LYS', 'ARG'], ['LEU', 'GLY']], None, 'mutate'),
+                ('hst5', [['HIS', 'ALA']], None, 'mutate'), ('hst5', [], [['LYS', 'LYS-LSN'], ['cter', 'COOH-ter'], ['nter', 'N-ter']], 'modify'),
+                ('villin', [['A-PHE', 'TYR'], ['LEU', 'ILE']], None, 'mutate'), ('3i40', [['B-', 'GLY']], None, 'mutate'),
+                ('3i40', [['A-CYS', 'SER'], ['B-CYS', 'ALA']], [['A-nter', 'NH2-ter'], ['cter', 'COOH-ter']], 'mutate'),
+                ('helix', [], [['GLU', 'GLU-HE1'], ['A-ASP', 'ASP-HD1'], ['cter', 'C-ter'], ['nter', 'N-ter']], 'modify')]
+    for s, muts, mods, fam in req:
+        for damage in (('',) if quick else ('', 'junk-all', 'del-all-h', 'shuffle-order+junk-h')):
+            case = {'structure': s, 'family': fam + ('+' + damage if damage else ''), 'seed': rng.randrange(10 ** 6),
+                    'bonds': 'distance' if 'junk' in damage else 'both', 'muts': muts}
+            if mods is not None:
+                case['mods'] = mods
+            cases.append(case)
+    return cases, structures
 
 
 def run(tier, seed, ev, vd):
-    ev.rule = ('synthetic blocks (3-6 atoms over C/O/H, trees and rings) judged exactly, and every connected block with 3-40 uniquely '
-               'named atoms of charmm / amber / gromos54a7 / universal, each in presentations from 8 option sets; 1-3 residues per '
-               'molecule (shared symmetry cache). Non-trivial = residue with >= 3 atoms; distinct by (block, presented residue).')
+    from . import c04_real
+    ev.rule = ('synthetic blocks (3-6 atoms over C/O/H, trees and rings) judged exactly; every connected block with 3-40 uniquely '
+               'named atoms of charmm / amber / gromos54a7 / universal, each in presentations from 8 option sets, 1-3 residues per '
+               'molecule (shared symmetry cache); REAL STRUCTURES through read_system + MakeBonds + AnnotateMutMod + RepairGraph in '
+               'damaged presentations (11 damage families and combinations, both bond modes, requested mutations / modifications). '
+               'Non-trivial = residue with >= 3 atoms (real structures: a residue the damage or a request touched); distinct by '
+               '(block or structure and residue, presented residue, input names, requests).')
     ev.assumptions = ['elements of block atoms are derived with vermouth.graph_utils.add_element_attr when the block does not give them',
-                      'for residues above 7 atoms the size of the largest common subgraph is bounded from below by the planted common '
-                      'part instead of being computed exactly', 'modifications requested with -modify are not generated here (C14)',
-                      'residues whose missing part is disconnected from everything present are not generated']
+                      'for residues above 7 atoms the size of the largest common subgraph is bounded from below by a common subgraph '
+                      'known by construction (shipped blocks) or by a certificate TLC verifies (real structures: the names the real '
+                      'RepairGraph gives the undamaged structure); where MakeBonds trusted a wrong atom name the certificate does not '
+                      'verify and no lower bound is used (counted as "nocert" in the evidence)',
+                      'residues whose missing part is disconnected from everything present are not generated',
+                      'a requested modification that does not fit the block (an anchor atom the block does not have) and the same '
+                      'modification requested twice (reference atom names repeat) are unspecified: not generated, verdict "unjudged"',
+                      'matcher runs beyond the time limit are inconclusive, never violations',
+                      'elements come from the element column of the PDB text (always written), not from the damaged names']
     quick = tier == 'quick'
-    nsyn = 480 if quick else 12000
-    blocks = sorted(real_blocks())
     rng = random.Random(seed)
+    blocks = sorted(real_blocks())                     # loads the force fields and bin/martinize2 once, before any fork
+    cases, structures = struct_cases(tier, rng)
+    base_events = []
+    for s in sorted(set(structures) | {c['structure'] for c in cases}):
+        names, evs, crash = c04_real.baseline(s)
+        if crash or not names:
+            raise tlc.MachineryError('the undamaged structure %s does not pass the front end: %s' % (s, crash))
+        for e in evs:
+            e['touched'] = True
+        base_events += evs
+    nsyn = 480 if quick else 12000
     if quick:
         blocks = rng.sample(blocks, min(len(blocks), 96))
         blocks.sort()
     reps = 1 if quick else 4
-    with mp.Pool(tlc.NCPU) as pool:
-        syn = pool.map(_synthetic_chunk, [(nsyn // tlc.NCPU, seed * 613 + i) for i in range(tlc.NCPU)])
-    pairs = []
+    tasks = [('struct', c) for c in cases]
     for r in range(reps):
         order = list(blocks)
         rng.shuffle(order)
         order.sort(key=lambda k: k[0])               # residues of one molecule come from one force field
         for i in range(0, len(order), 2):
             pair = [p for p in order[i:i + 2] if p[0] == order[i][0]]
-            pairs.append(pair)
-    real = run_real(pairs, seed, 6 if quick else 20)
-    events = [e for p in syn for e in p] + real
-    fam = judge_events(events, ev, vd)
-    ev.extra['events_by_presentation'] = fam
+            tasks.append(('pair', pair, seed * 7919 + len(tasks)))
+    per = 30 if quick else 150
+    tasks += [('syn', per, seed * 613 + i) for i in range(nsyn // per)]
+    tasks += [('events', chunk) for chunk in common.chunks(base_events, 4)]
+    sm = run_tasks(tasks, (6 if quick else 20, 30 if quick else 90))
+    if sm.harness_errors:
+        raise tlc.MachineryError('harness error in %d real-structure cases, e.g. %s' % (len(sm.harness_errors), sm.harness_errors[0]))
+    ev.states += sm.states
+    ev.transitions += sm.transitions
+    ev.traces += sm.traces
+    ev.evaluations += sm.traces
+    ev.nontrivial |= sm.nontrivial
+    for kind, scenario, detail in sm.violations:
+        vd.violation(kind, scenario, detail)
+    # vacuity: every damage family must have shown its effect in an accepted, judged residue
+    missing = []
+    for c in cases:
+        for f in c['family'].split('+'):
+            want = c04_real.MUST_SHOW.get(f)
+            if want and not any(fx.get(want) for fam, fx in sm.effects.items() if f in fam.split('+')):
+                missing.append('%s (no judged residue shows "%s")' % (f, want))
+    if missing and not sm.nviol:
+        raise tlc.MachineryError('vacuous real-structure families: %s; effects seen: %s' % (sorted(set(missing)), sm.effects))
+    if not sm.notes.get('cert'):
+        raise tlc.MachineryError('no certificate of a common subgraph was accepted by TLC: the lower bound was never exercised')
+    ev.extra['events_by_presentation'] = sm.fam
     ev.extra['real_blocks_used'] = len(blocks)
-    ev.tlc_runs.append({'run': 'TRACE Trace_Repair', 'events': len(events)})
-    e0 = next(e for e in events if e['kind'] == 'repair' and (e.get('presentation') or {}).get('delete') and e.get('added'))
-    ev.sample({'kind': 'recorded repair judged by TLC', 'block': e0['block'], 'presentation': e0['presentation'], 'names_in': e0['names_in'],
-               'assigned': e0['assigned'], 'added': e0['added'], 'flagged': e0['flagged']})
+    ev.extra['real_structure_cases'] = len(cases)
+    ev.extra['real_structure_effects_in_accepted_residues'] = sm.effects
+    ev.extra['real_structure_lower_bound'] = sm.notes
+    ev.extra['unjudged'] = sm.unjudged
+    ev.extra['inconclusive_matcher_timeouts'] = sm.inconclusive
+    ev.extra['inconclusive_examples'] = sm.inconclusive_examples
+    ev.tlc_runs.append({'run': 'TRACE Trace_Repair', 'events': sm.events})
+    for s in sm.samples.values():
+        ev.sample(s)
 
 
 def replay(sc):
+    info = sc.get('info') or {}
+    if sc.get('kind') in ('repairx', 'molecule', 'unknown') and info.get('structure'):
+        from . import c04_real
+        c04_real._load()
+        if info.get('family') == 'as-shipped':
+            events = c04_real.baseline(info['structure'])[1]
+        else:
+            case = {'structure': info['structure'], 'family': info['family'], 'seed': info['seed'], 'bonds': info['bonds'], 'mods': info['mods'], 'muts': info['muts']}
+            events = c04_real.run_case(case).events
+        events = [e for e in events if e['kind'] == sc['kind'] and e.get('where') == sc.get('where')]
+        d, g, verdicts = judge_batch(events)
+        for i, e in enumerate(events, 1):
+            print('now:', e['where'], info.get('damage'), verdicts.get(i))
+            if e['kind'] == 'repairx':
+                print('  names in :', e['names_in'])
+                print('  names out:', [(o['name'], o['ptm']) for o in e['out']])
+        return 0
     print({k: sc[k] for k in sc if k not in ('Ref', 'R')})
     return 0
 
 
+def judge_events(events, ev, vd):
+    """In-process judgement of a short list (selftest)."""
+    sm = Summary()
+    judge_into(events, sm)
+    ev.traces += sm.traces
+    ev.evaluations += sm.traces
+    for kind, scenario, detail in sm.violations:
+        vd.violation(kind, scenario, detail)
+    return sm
+
+
 def selftest(seed):
     import copy
+    import os
+    from . import c04_real
     events = [e for e in _synthetic_chunk((30, seed)) if not e.get('crash') and not e.get('problems') and len(e['assigned']) >= 3 and not e['mutated']]
     good = events[0]
     b1 = copy.deepcopy(events[1])
@@ -434,9 +717,63 @@ def selftest(seed):
     ev = common.Evidence(PID, 'quick', seed)
     vd = common.Verdicts(PID, ev)
     judge_events([good, b1, b2], ev, vd)
-    assert len(vd.violations) >= 1, vd.violations
+    assert len(vd.violations) == 2, vd.violations
     print('selftest C04: tampered repairs rejected:', [d.split(': ')[-1] for k, p, d in vd.violations])
-    import os
     for k, p, d in vd.violations:
         os.path.exists(p) and os.remove(p)
+    # real structures: one recorded run per family of tampering
+    c04_real._load()
+    rec = c04_real.run_case({'structure': 'trpcage', 'family': 'junk-all+del-side-subset+extra-atoms', 'seed': seed + 5, 'bonds': 'distance',
+                             'muts': [['A-TRP6', 'ALA']]})
+    assert not rec.crash, rec.crash
+    rx = [e for e in rec.events if e['kind'] == 'repairx']
+    plain = [e for e in rx if not e['muts'] and not e['mods']]
+    readd = next(e for e in plain if 'readded' in c04_real.effects(e))
+    marked = next(e for e in plain if 'marked' in c04_real.effects(e))
+    renamed = next(e for e in plain if 'renamed' in c04_real.effects(e))
+    mutated = next(e for e in rx if e['muts'])
+    term = next(e for e in rx if e['mods'])
+    mol = next(e for e in rec.events if e['kind'] == 'molecule')
+    unk = next(e for e in rec.events if e['kind'] == 'unknown')
+    tampered = []
+
+    def tamper(e, what, fn):
+        t = copy.deepcopy(e)
+        fn(t)
+        t['info'] = dict(t['info'], family='selftest:' + what)
+        tampered.append((what, t))
+    orig = lambda e: {n[0] for n in e['R']['nodes']}                                       # noqa
+    tamper(readd, 're-added atom dropped', lambda t: t['out'].remove(next(o for o in t['out'] if o['id'] not in orig(t))))
+    tamper(readd, 'bond of a re-added atom moved', lambda t: t['edges'].remove(next(ed for ed in t['edges'] if not set(ed) <= orig(t))))
+    tamper(marked, 'unknown atom not marked', lambda t: next(o for o in t['out'] if o['ptm']).update(ptm=False, name=t['blocks'][0]['names'][0]))
+    tamper(marked, 'unknown atom given a junk name and not marked', lambda t: next(o for o in t['out'] if o['ptm']).update(ptm=False))
+
+    def swap_names(t):
+        rec_ = [o for o in t['out'] if not o['ptm']]
+        a = next(o for o in rec_ if o['name'] == 'CA')
+        b = next(o for o in rec_ if o['name'] == 'C')
+        a['name'], b['name'] = b['name'], a['name']
+    tamper(renamed, 'two canonical names exchanged', swap_names)
+    tamper(renamed, 'input name kept', lambda t: next(o for o, nm in zip(t['out'], t['names_in']) if o['name'] != nm and not o['ptm']).update(name='X1'))
+    tamper(renamed, 'recognised atom marked', lambda t: next(o for o in t['out'] if not o['ptm']).update(ptm=True))
+    tamper(mutated, 'old side-chain atom kept', lambda t: t['out'].append({'id': next(k for k in orig(t) if k not in {o['id'] for o in t['out']}),
+                                                                           'name': 'CG', 'ptm': True, 'resname': 'ALA'}))
+    tamper(mutated, 'residue name not changed', lambda t: [o.update(resname=t['resname']) for o in t['out']])
+    tamper(mutated, 'reference of the old residue used', lambda t: t.update(muts=[]))
+    tamper(term, 'atom of the requested modification missing', lambda t: t['out'].remove(next(o for o in t['out'] if o['ptm'])))
+    tamper(mol, 'bond between two residues lost', lambda t: t['outEdges'].remove(next(ed for ed in t['outEdges'] if ed in t['inEdges'] and
+                                                                                      len({a['res'] for a in t['atoms'] if a['id'] in ed}) == 2)))
+    tamper(unk, 'molecule dropped', lambda t: t['kept'].pop())
+    ev = common.Evidence(PID, 'quick', seed)
+    vd = common.Verdicts(PID, ev)
+    sm = judge_events([readd, marked, renamed, mutated, term, mol, unk], ev, vd)
+    assert not vd.violations and not sm.unjudged, (vd.violations, sm.unjudged)
+    for what, t in tampered:
+        ev = common.Evidence(PID, 'quick', seed)
+        vd = common.Verdicts(PID, ev)
+        judge_events([t], ev, vd)
+        assert len(vd.violations) == 1, (what, vd.violations)
+        print('selftest C04 (real structure): %-48s -> %s' % (what, vd.violations[0][2].split(': ')[-1]))
+        for k, p, d in vd.violations:
+            os.path.exists(p) and os.remove(p)
     return 0
